@@ -106,7 +106,10 @@ def prune_cache(keep=2):
         if os.path.isdir(p) and e != cur and not e.startswith("target"):
             ents.append((os.path.getmtime(p), p))
     ents.sort(reverse=True)
-    for _, p in ents[max(0, keep - 1):]:
+    now = time.time()
+    for mt, p in ents[max(0, keep - 1):]:
+        if now - mt < 3600:
+            continue        # possibly in use by a check started on an earlier state of the trees
         subprocess.run(["rm", "-rf", p])
 
 
